@@ -18,7 +18,7 @@ ASSUMPTIONS = ['statistical bounds are set at >= 7 sigma of the estimator (false
                '"rejects" means raises an exception instead of returning a frame']
 PLAN = {'quick': {'gen': 8}, 'thorough': {'gen': 16, 'tests': 1, 'docs': 1}}
 REQUIRED_BUCKETS = ['shot:poisson', 'shot:gaussian', 'shot:reject-negative', 'shot:reject-huge', 'shot:reject-array',
-                    'read_noise', 'dark:nofpn', 'dark:fpn', 'rule07', 'psd:square', 'psd:nonsquare', 'cosmic', 'fresh-process']
+                    'read_noise', 'read_noise:small-frames', 'read_noise:cube', 'dark:nofpn', 'dark:fpn', 'rule07', 'psd:square', 'psd:nonsquare', 'cosmic', 'fresh-process']
 REQUIRED_ANCHORS = ['anchor:shot_noise', 'anchor:read_noise', 'anchor:dark_current', 'anchor:power_spectrum',
                     'anchor:_cosmic_ray', 'anchor:_nrays']
 REQUIRED_ORACLES = ['deterministic', 'seed-sensitive', 'global-rng-untouched', 'global-rng-independent', 'poisson:support',
@@ -176,6 +176,45 @@ def workload(ctx, lentil):
             ctx.check(abs(mi) <= 7 * sig_i / np.sqrt(N) and abs(vi - sig_i ** 2) <= 7 * sig_i ** 2 * np.sqrt(2.0 / N), 'read:moments',
                       'read|moments|integer-frame', 'read noise on an integer-typed frame does not have zero mean and the requested '
                       'standard deviation (7 sigma)', {'sigma': sig_i, 'mean': mi, 'var': vi, 'dtype': np.dtype(dt).name})
+    # read noise on very small frames, judged over an ensemble of seeds: every pixel is an independent N(0, sigma) draw
+    # (a single pixel is still noisy; the pixels of one frame are not tied to each other)
+    for i in range(3 if ctx.tier == 'quick' else 8):
+        shp = [(1, 1), (2, 2), (3, 3), (1, 2), (2, 3)][i % 5]
+        sig = float(rng.uniform(1, 30))
+        K = 3000
+        s0 = int(rng.integers(0, 2 ** 31))
+        base = rng.uniform(100, 1000, size=shp)
+        ctx.case({'read-small-frames': list(shp), 'sigma': sig, 'K': K}, ['read_noise:small-frames'])
+        with probe.quiet():
+            xs = np.array([np.asarray(D.read_noise(base, sig, seed=s0 + k), float) - base for k in range(K)])
+        npx = shp[0] * shp[1]
+        v = float(np.mean(xs ** 2))                 # pooled second moment about the true mean 0 (npx*K samples)
+        m = float(np.mean(xs))
+        ctx.check(abs(v - sig ** 2) <= 6 * sig ** 2 * np.sqrt(2.0 / (npx * K)) and abs(m) <= 6 * sig / np.sqrt(npx * K), 'read:moments',
+                  'read|moments|small-frames', 'read noise on a very small frame, over an ensemble of seeds, does not have zero mean and '
+                  'the requested standard deviation (6 sigma)', {'shape': list(shp), 'sigma': sig, 'var': v, 'mean': m})
+        if npx > 1:
+            # the frame mean is itself N(0, sigma/sqrt(npx)): pixels of one draw are independent, not forced to cancel
+            fm = xs.reshape(K, -1).mean(axis=1)
+            vm = float(np.mean(fm ** 2)) * npx
+            ctx.check(abs(vm - sig ** 2) <= 6 * sig ** 2 * np.sqrt(2.0 / K), 'read:moments', 'read|moments|frame-mean',
+                      'the mean of a read-noise frame does not fluctuate like the mean of independent draws', {'shape': list(shp), 'var_of_mean_x_n': vm,
+                                                                                                               'sigma': sig})
+    # a seeded cube: all its samples are independent draws - frames of the stack do not repeat each other
+    for i in range(2 if ctx.tier == 'quick' else 6):
+        nf, shp = int(rng.integers(8, 40)), gen.rshape(rng, 4, 24)
+        sig = float(rng.uniform(1, 30))
+        seed = int(rng.integers(0, 2 ** 32))
+        cube = np.zeros((nf,) + tuple(shp))
+        ctx.case({'read-cube': [nf] + list(shp), 'sigma': sig, 'seed': seed}, ['read_noise:cube'])
+        x = np.asarray(D.read_noise(cube, sig, seed=seed), float)
+        Nc = x.size
+        rep = max(float(np.max(np.abs(x[a] - x[a - 1]))) for a in range(1, nf))
+        dv = float(np.mean((x[1:] - x[:-1]) ** 2))          # differences of independent frames: variance 2 sigma^2
+        ctx.check(x.shape == cube.shape and rep > 0 and abs(dv - 2 * sig ** 2) <= 7 * 2 * sig ** 2 * np.sqrt(3.0 / Nc)
+                  and abs(float(x.var()) - sig ** 2) <= 7 * sig ** 2 * np.sqrt(2.0 / Nc), 'read:moments', 'read|moments|cube',
+                  'the frames of a seeded read-noise cube are not independent draws with the requested standard deviation',
+                  {'shape': list(x.shape), 'sigma': sig, 'var': float(x.var()), 'var_of_frame_differences': dv})
     for i in range(n):
         rate = float(10 ** rng.uniform(-1, 4))
         shape = gen.rshape(rng, 1, 20)
